@@ -24,7 +24,10 @@ RULE = (
     "(with/without log_times) on ev_i in a scratch directory and feed it (optionally make_statistic); load a shipped "
     "config; read ev_i.resulting_metric_keys; save_to_config(ev_i); evaluate with the real multiprocessing pools; evaluate "
     "while the process reports 1/2/3/5 CPUs (serial and real pools); hand one processing-pair object to panoptic_evaluate "
-    "twice (both results must be identical). Oracle: "
+    "twice, also after it went through the pipeline with another configuration's components (result = that of a fresh pair object); "
+    "refill an input's arrays in place (flip / roll / exchange / clear) as a caller reusing its buffers does; switch an evaluator's "
+    "timing flag with set_log_group_times; inputs of one history may differ in dimensionality and dtype, and the label set may hold a "
+    "label (300) that only 16-bit inputs can carry. Oracle: "
     "pristine baselines - a server process forked right after import, before any panoptica object exists, forks one "
     "grandchild per (configuration, input) request; after every step the step's result (lazy attributes forced) equals "
     "the baseline exactly, caller arrays are byte-identical and keep dtype/shape/flags, resulting_metric_keys and the "
@@ -128,7 +131,7 @@ def ev_cfg(draw, it, labels):
 
 @st.composite
 def step(draw, nev, nin):
-    op = draw(st.sampled_from(["evaluate"] * 5 + ["construct", "construct", "aggregate", "aggregate", "load_shipped", "keys", "save", "real_pool", "pair_twice", "refill", "refill"]))
+    op = draw(st.sampled_from(["evaluate"] * 5 + ["construct", "construct", "aggregate", "aggregate", "load_shipped", "keys", "save", "real_pool", "pair_twice", "refill", "refill", "set_times"]))
     s = {"op": op, "ev": draw(st.integers(0, nev - 1)), "in": draw(st.integers(0, nin - 1))}
     if op in ("evaluate", "real_pool") and draw(st.booleans()):
         s["cpus"] = draw(st.sampled_from([1, 2, 2, 3, 5]))  # number of CPUs the process sees
@@ -139,6 +142,8 @@ def step(draw, nev, nin):
         s["first"] = draw(st.sampled_from(["same", "extra"]))  # components of the first evaluation of the pair object
     elif op == "refill":
         s["how"] = draw(st.sampled_from(["flip", "roll", "exchange", "clear_pred"]))
+    elif op == "set_times":
+        s["value"] = draw(st.booleans())
     elif op == "construct":
         s["what"] = draw(st.sampled_from(["evaluator_default", "handler_default", "naive_default", "merge_default", "evaluator_random_used",
                                           "evaluator_decision_outside_metrics", "evaluator_no_global_metrics", "approximator_default_used", "groups_object"]))
@@ -254,6 +259,7 @@ def check(case, stats):
         return base_cache[key]
 
     evs = [H.lib_call(lib.evaluator, c) for c in case["evaluators"]]
+    cur_cfg = [dict(c) for c in case["evaluators"]]
     arrays = [_build_inputs(x.get("dtype") or dtype, x["layout"], x["pred"], x["ref"]) for x in case["inputs"]]
     copies = [(p.copy(), r.copy()) for p, r in arrays]
     metas = [[(a.dtype, a.shape, a.strides, a.flags.c_contiguous, a.flags.f_contiguous, a.flags.writeable) for a in pr] for pr in arrays]
@@ -318,6 +324,10 @@ def check(case, stats):
                     copies[j] = (p.copy(), r.copy())
                     version[j] += 1
                     stats.count("inputs_refilled_in_place")
+                elif op == "set_times":
+                    # an explicit change of the configuration (not "use"): the saved configuration follows it
+                    H.lib_call(evs[i].set_log_group_times, s["value"])
+                    cur_cfg[i] = {**cur_cfg[i], "flags": {**(cur_cfg[i].get("flags") or {}), "save_group_times": s["value"]}}
                 elif op == "construct":
                     w = s["what"]
                     if w == "evaluator_default":
@@ -393,7 +403,7 @@ def check(case, stats):
                 elif op == "save":
                     path = os.path.join(scratch, f"cfg{k}.yaml")
                     H.lib_call(evs[i].save_to_config, path)
-                    want = ask(("yaml", case["evaluators"][i]))
+                    want = ask(("yaml", cur_cfg[i]))
                     if open(path).read() != want:
                         raise Violation(f"{where}: saved configuration of evaluator {i} differs from the one a pristine evaluator saves")
             for (p, r), (pc, rc), mt in zip(arrays, copies, metas):
